@@ -13,7 +13,7 @@
    "All paths" is the transitive closure over the whole graph, not the paths a run takes.
    The construction of the graph from Go source (the translator's edge rules) is trusted. *)
 From Coq Require Import NArith List.
-From MTV Require Import Misc.Taint Misc.TaintProofs.
+From MTV Require Import Misc.Taint Misc.TaintProofs Misc.Fresh Misc.FreshProofs.
 Import ListNotations.
 Open Scope N_scope.
 
@@ -61,4 +61,37 @@ Proof. vm_compute. reflexivity. Qed.
 
 Example C19_example_no_source :
   secrets_ok [(0, (KNeutral, [1])); (1, (KNeutral, []))] [0] [] = false.
+Proof. vm_compute. reflexivity. Qed.
+
+(* ---- freshness: "drawn from the OS source" also means every draw is a NEW part of its output ----
+   The source is a stream with a position (Misc/Fresh.v): a draw of n bytes is the range (pos, n) and
+   advances pos.  For EVERY sequence of draw sizes the ranges are ordered and pairwise disjoint, and a
+   consumer that hands out bytes from inside its own draws never hands out a byte twice.  The ranges
+   the real code hands out are recorded against a recording crypto/rand.Reader on every run and
+   checked with [fresh_ok] (exact, below) in Inst/C19f.v. *)
+Theorem C19_draws_disjoint : forall pos sizes, ForallOrdPairs disjoint (draws pos sizes).
+Proof. exact draws_disjoint. Qed.
+Print Assumptions C19_draws_disjoint.
+
+Theorem C19_draws_within : forall pos sizes,
+  Forall (fun r => pos <= fst r /\ r_end r <= pos + total sizes) (draws pos sizes).
+Proof. exact draws_within. Qed.
+Print Assumptions C19_draws_within.
+
+Theorem C19_handed_inside_draws_disjoint : forall pos sizes handed,
+  Forall2 inside handed (draws pos sizes) -> ForallOrdPairs disjoint handed.
+Proof. exact handed_inside_draws_disjoint. Qed.
+Print Assumptions C19_handed_inside_draws_disjoint.
+
+Theorem C19_fresh_ok_exact : forall served handed,
+  fresh_ok served handed = true <->
+  Forall (fun r => r_end r <= served) handed /\ ForallOrdPairs disjoint handed.
+Proof. exact fresh_ok_spec. Qed.
+Print Assumptions C19_fresh_ok_exact.
+
+(* three draws 16, 32, 16 are fresh; a 32-byte value that wraps into bytes 0..16 of an earlier draw is not *)
+Example C19_example_fresh : fresh_ok 64 (draws 0 [16; 32; 16]) = true.
+Proof. vm_compute. reflexivity. Qed.
+
+Example C19_example_replayed : fresh_ok 256 [(0, 16); (16, 32); (240, 16); (0, 32)] = false.
 Proof. vm_compute. reflexivity. Qed.
